@@ -204,10 +204,10 @@ def random_case(rng, lang, mode, maxlen, counter):
     if r < 0.35:
         names = sorted({n for t in trees for n in expected_files(t, lang)})
         if mode == 'single':
-            seed.append([f'out.{ext}', rng.choice(['junk', 'empty', ['fresh', rng.randrange(len(trees))]])])
+            seed.append([f'out.{ext}', rng.choice(['junk', 'empty', ['fresh', rng.randrange(len(trees))], ['symlink', rng.randrange(len(trees))]])])
         else:
             for n in rng.sample(names, min(len(names), rng.randint(1, 2))):
-                seed.append([f'out/{n}', rng.choice(['junk', 'empty', ['fresh', rng.randrange(len(trees))]])])
+                seed.append([f'out/{n}', rng.choice(['junk', 'empty', ['fresh', rng.randrange(len(trees))], ['symlink', rng.randrange(len(trees))]])])
             if lang == 'swift' and rng.random() < 0.5:
                 seed.append(['out/Codable.swift', rng.choice(['junk', 'codable_nonl', ['fresh', rng.randrange(len(trees))]])])
         seed.append([rng.choice(['keep.txt', 'out.bak'] if mode == 'single' else ['out/unrelated.txt', 'out/sub/deep.txt']), 'junk'])
@@ -271,6 +271,8 @@ def directed_cases():
             case([v_base, v_moved], [0, 1], seed=[[f'out.{ext}', ['fresh', 0]], ['keep.txt', 'junk']] if mode == 'single' else
                  [[f'out/{out_name(lang, "net")}', ['fresh', 0]], [f'out/{out_name(lang, "alpha_core")}', 'junk'], ['out/unrelated.txt', 'junk']],
                  what='location pre-seeded with an up-to-date file, a stale file and an unrelated file')
+            case([v_base, v_renamed], [0, 0, 0, 1, 1], seed=[[f'out.{ext}', ['symlink', 0]]] if mode == 'single' else [[f'out/{out_name(lang, "net")}', ['symlink', 0]], [f'out/{out_name(lang, "alpha_core")}', ['fresh', 0]]],
+                 what='an up-to-date output file that is a symbolic link: untouched by unchanged re-runs, rewritten (through the link) when the sources change')
             if lang in GEN_FAIL:
                 v_gen = {'alpha_core': {'lib.rs': [A]}, 'net': {'lib.rs': [B, dict(kind=GEN_FAIL[lang], name='Broken', fields=[], unit=False)], 'model.rs': [E]}, 'z9': {'lib.rs': [C]}}
                 case([v_added, v_gen], [0, 1, 1, 0, 0], what='generation fails at the second of three crates')
@@ -353,6 +355,16 @@ def execute(case, root):
             if data is None:
                 data = b'// nothing fresh under this name\n'
         (loc / rel).parent.mkdir(parents=True, exist_ok=True)
+        if isinstance(what, list) and what[0] == 'symlink':
+            # the output path is a symbolic link to a file elsewhere that holds the up-to-date contents: an unchanged re-run must
+            # leave it alone like any other up-to-date file (seeded C17_f: a size pre-check through DirEntry::metadata, which does
+            # not follow links, rewrote it on every run)
+            tgt = root / 'linked' / rel.replace('/', '_')
+            tgt.parent.mkdir(parents=True, exist_ok=True)
+            tgt.write_bytes(data)
+            os.symlink(tgt, loc / rel)
+            state[rel] = (data, 0)
+            continue
         (loc / rel).write_bytes(data)
         state[rel] = (data, 0)
     init = dict(state)
